@@ -153,7 +153,10 @@ static void DecodeAdr(tStrComp const* pArg, Byte Erl) {
                 Arg = Remainder;
             }
         } while (EPos && OK);
-        if (DispAcc != 0) {
+        /* a zero displacement to a register may be dropped; without any
+           register, the value is an absolute address, also if it is zero */
+
+        if ((DispAcc != 0) || !RegFlag) {
             RegFlag |= 1 << AdrRegCnt;
         }
         if (OK) {
